@@ -127,9 +127,23 @@ Inductive route := RReturn | RExit | RExitInBlock | RThrow | RExitStatus | RExit
 | RSigCaughtThrow    (* a signal exception caught, later an ordinary uncaught throw *)
 | RSigCaughtExit.    (* a signal exception caught, later exit() from a nested call *)
 
+(* A destructor that brackets the release of its C resource with a stop/start window of its own
+   ("keep the collector quiet for a critical section"):
+       bool was = running(gc);  stop(gc);  <release>;  if (was) start(gc);
+   GC_Stop and GC_Start only touch gc->running.  `keep` re-states that as found in the C text
+   (Generated.gc_start_stop_keep_pending): a GC_Start that "forgets" a pending list it finds
+   (seeded C06-r7-2) empties the list of the sweep that is calling the destructor. *)
+Definition gc_stop (s : st) : st := set_running false s.
+Definition gc_start (keep : bool) (s : st) : st := set_running true (if keep then s else set_pend [] s).
+Definition window (keep : bool) (s : st) : st := if running s then gc_start keep (gc_stop s) else gc_stop s.
+(* destructor prologue: the objects `win` open such a window before anything else their destructor does *)
+Definition dwin (win : id -> bool) (keep : bool) (s : st) (o : id) : st := if win o then window keep s else s.
+Notation nopro := (fun (s : st) (_ : id) => s) (only parsing).
+
 Section Machine.
   Variable mrule : nat -> nat.           (* gc->mitems = mrule(gc->nitems) after a sweep / a removal *)
   Variables rem_fix sweep_fix defer_fix : bool.
+  Variable pro : st -> id -> st.         (* destructor prologue (dwin …, or nopro) *)
 
   (* GC_Rem (rem(current(GC), p), i.e. del / del_root), with `fin` = dealloc(destruct(.)). *)
   Definition gc_rem (fin : st -> id -> st) (s : st) (p : id) : st :=
@@ -199,13 +213,13 @@ Section Machine.
            else s2
     end.
 
-  (* dealloc(destruct(o)): destructor (ledger; allocations it makes; a Box dels what it owns, then
-     clears its pointer), then the memory is released. *)
+  (* dealloc(destruct(o)): destructor (ledger; its own stop/start window, if any; allocations it makes;
+     a Box dels what it owns, then clears its pointer), then the memory is released. *)
   Fixpoint finalise (fuel : nat) (s : st) (o : id) : st :=
     match fuel with
     | O => set_oof s
     | S f =>
-      let s1 := add_log (LFin o) s in
+      let s1 := pro (add_log (LFin o) s) o in
       let s1a := fold_left (alloc_child (finalise f)) (spawns s1 o) s1 in
       let s2 :=
         match owned s1a o with
